@@ -14,7 +14,7 @@ ASSUMPTIONS = [
     "the reading side is a std::vector of a class whose Serialize asks for string members by name; T_C09_reader_rfc* presuppose distinct header names (NoDup hdr); T_C09_reader_any_header says what is returned otherwise",
     "the stream reader theorems are for every chunk size K >= 1; the library instantiates K = 256 and only that value is exercised against the code",
     "the row-width check of the writers compares with the first row (mPrevValuesCount), as the code does",
-    "known findings, mirrored by the model and named by _refuted theorems: F18 (writer-side width error leaves a destructor => std::terminate), F22 (no rows => nothing written, not even the header)",
+    "known findings, mirrored by the model and named by _refuted theorems: F22 (no rows => nothing written, not even the header)",
 ]
 
 RULE = ("tables 1..6 columns x 0..5 rows over an alphabet weighted to DQUOTE , ; TAB | SPACE CR LF CRLF and multi-byte UTF-8, field lengths 0..700 "
